@@ -462,6 +462,49 @@ fn view_rows(rep: &mut Report) {
     }
 }
 
+/// handle types that have no Hash impl today: should one appear, it has to feed the hasher what the value feeds it
+fn optional_hash_rows(rep: &mut Report) {
+    struct P<T>(std::marker::PhantomData<T>);
+    trait NoHash<T> {
+        fn try_calls(&self, _v: &T) -> Option<Vec<(u8, Vec<u8>)>> {
+            None
+        }
+    }
+    impl<T> NoHash<T> for P<T> {}
+    #[allow(dead_code)]
+    impl<T: Hash> P<T> {
+        fn try_calls(&self, v: &T) -> Option<Vec<(u8, Vec<u8>)>> {
+            Some(calls(v))
+        }
+    }
+    rep.evals += 1;
+    let o = Arc::into_raw_offset(Arc::new((1u8, 2u32)));
+    if let Some(c) = P::<OffsetArc<(u8, u32)>>(std::marker::PhantomData).try_calls(&o) {
+        if c != calls(&*o) {
+            rep.bad("Hash of a handle differs from the value's: OffsetArc", String::new());
+        }
+    }
+    let a = Arc::new((1u8, 2u32));
+    let b = a.borrow_arc();
+    if let Some(c) = P::<ArcBorrow<'_, (u8, u32)>>(std::marker::PhantomData).try_calls(&b) {
+        if c != calls(&*b) {
+            rep.bad("Hash of a handle differs from the value's: ArcBorrow", String::new());
+        }
+    }
+    let u: ArcUnion<(u8, u32), u8> = ArcUnion::from_first(a.clone());
+    if let Some(c) = P::<ArcUnion<(u8, u32), u8>>(std::marker::PhantomData).try_calls(&u) {
+        if c != calls(&*a) {
+            rep.bad("Hash of a handle differs from the value's: ArcUnion", String::new());
+        }
+    }
+    let q = triomphe::UniqueArc::new((1u8, 2u32));
+    if let Some(c) = P::<triomphe::UniqueArc<(u8, u32)>>(std::marker::PhantomData).try_calls(&q) {
+        if c != calls(&*q) {
+            rep.bad("Hash of a handle differs from the value's: UniqueArc", String::new());
+        }
+    }
+}
+
 fn unsized_rows(rep: &mut Report) {
     use unsize::{CoerceUnsize, Coercion};
     let shapes: Vec<Arc<dyn Shape>> = vec![
@@ -702,6 +745,7 @@ pub fn run(total_rows: &str, partial_rows: &str, refl_rows: &str, out_path: &str
     hash_rows(&mut rep);
     unsized_rows(&mut rep);
     view_rows(&mut rep);
+    optional_hash_rows(&mut rep);
     format_rows(&mut rep);
     if samples.is_empty() {
         samples.push(json!("(no row sampled)"));
